@@ -107,3 +107,30 @@ Theorem points_match :
   forallb (fun n => existsb (String.eqb n) (map pt_name all_points)) source_points = true /\
   forallb (fun p => existsb (String.eqb (pt_name p)) source_points) all_points = true.
 Proof. split; vm_compute; reflexivity. Qed.
+
+(* ---- the whole path from the script's delay to the armed duration: never earlier than the delay ---- *)
+Lemma delay_millis_in64 v : in64 (delay_millis v).
+Proof.
+  unfold delay_millis, in64, min64, max64. destruct v as [[n d]|]; [|lia].
+  cbv zeta. destruct (cdiv n d >=? 9223372036854775807) eqn:E1; [lia|]. destruct (cdiv n d <=? -9223372036854775808) eqn:E2; lia.
+Qed.
+
+(* for every finite non-negative delay n/d milliseconds (fractional, huge, given as a number, a string or an object - whatever
+   ToNumber made of it) the timer is armed for at least n/d milliseconds (in nanoseconds: armed * d >= n * 10^6), or for the
+   largest duration there is *)
+Theorem delay_never_early n d : 0 < d -> 0 <= n ->
+  let armed := ms_to_duration (delay_millis (Some (n, d))) in
+  armed * d >= n * 1000000 \/ armed = max64.
+Proof.
+  intros Hd Hn armed. unfold armed. pose proof (delay_millis_in64 (Some (n, d))) as Hin.
+  rewrite ms_to_duration_spec by exact Hin. unfold saturate, delay_millis, cdiv, in64, min64, max64 in *. cbv zeta in *.
+  destruct (- (- n / d) >=? 9223372036854775807) eqn:E1.
+  - right. destruct (9223372036854775807 * 1000000 >? 9223372036854775807) eqn:E; [reflexivity|lia].
+  - destruct (- (- n / d) <=? -9223372036854775808) eqn:E2; [lia|].
+    destruct (- (- n / d) * 1000000 >? 9223372036854775807) eqn:E3; [right; reflexivity|].
+    destruct (- (- n / d) * 1000000 <? -9223372036854775808) eqn:E4; [lia|]. left. nia.
+Qed.
+
+(* NaN and negative delays are armed with a non-positive or zero delay: "as soon as possible", never a wrapped huge one *)
+Theorem delay_nan_is_zero : ms_to_duration (delay_millis None) = 0.
+Proof. rewrite ms_to_duration_spec by (apply delay_millis_in64). reflexivity. Qed.
